@@ -66,21 +66,32 @@ var nobs int32
 
 var (
 	obsIDMu   sync.RWMutex
-	observeID = map[string]func(point string, ids []string){}
+	observeID = map[string]*idObserver{}
 )
 
 // ObserveID registers fn for hook calls whose first id equals id exactly (e.g. verifhook.Ptr of an object).
 func ObserveID(id string, fn func(point string, ids []string)) func() {
+	// the id is an address: once the object is garbage a later object (of another run) may get the same one and
+	// register under the same id, so a registration is removed only by its own unregister function
+	reg := &idObserver{fn: fn}
 	obsIDMu.Lock()
-	observeID[id] = fn
-	atomic.AddInt32(&nobs, 1)
+	if _, had := observeID[id]; !had {
+		atomic.AddInt32(&nobs, 1)
+	}
+	observeID[id] = reg
 	obsIDMu.Unlock()
 	return func() {
 		obsIDMu.Lock()
-		delete(observeID, id)
-		atomic.AddInt32(&nobs, -1)
+		if observeID[id] == reg {
+			delete(observeID, id)
+			atomic.AddInt32(&nobs, -1)
+		}
 		obsIDMu.Unlock()
 	}
+}
+
+type idObserver struct {
+	fn func(point string, ids []string)
 }
 
 func runPrefix(id string) string {
@@ -99,10 +110,10 @@ func handle(point string, ids ...string) {
 	if atomic.LoadInt32(&nobs) > 0 {
 		if len(ids) > 0 {
 			obsIDMu.RLock()
-			fn := observeID[ids[0]]
+			reg := observeID[ids[0]]
 			obsIDMu.RUnlock()
-			if fn != nil {
-				fn(point, ids)
+			if reg != nil {
+				reg.fn(point, ids)
 			}
 		}
 		for _, x := range ids {
